@@ -50,7 +50,7 @@ def text_lines(out):
 
 
 def norm_lines(lines, lenient_ws):
-    out = [l.replace(ZWSP, "") for l in lines]
+    out = [x for l in lines for x in l.replace(ZWSP, "").split("\n")]
     while len(out) > 1 and out[-1] == "":
         out.pop()
     if lenient_ws:
